@@ -44,6 +44,8 @@ pub struct GraphOpts {
     pub mark_all: bool,
     /// now and then add a text-only source whose output has a boundary size (0, 8192, ...)
     pub sized: bool,
+    /// now and then add a few dozen tiny independent sources (more results than any queue holds)
+    pub wide: bool,
 }
 
 impl Default for GraphOpts {
@@ -60,6 +62,7 @@ impl Default for GraphOpts {
             decoys: true,
             mark_all: false,
             sized: true,
+            wide: false,
         }
     }
 }
@@ -242,6 +245,15 @@ pub fn gen_graph_project(rng: &mut Rng, o: &GraphOpts, n: usize, edges: &BTreeSe
     }
     let mut paths: Vec<String> = vec![];
     for i in 0..n {
+        if i % 2 == 1 && rng.chance(1, 6) {
+            // same directory and stem as the previous source, another extension: the two outputs
+            // differ only in their last extension
+            let prev: &String = &paths[i - 1];
+            let d = parent_rel(prev);
+            let name = format!("f{}.md.txtpp", i - 1);
+            paths.push(if d.is_empty() { name } else { format!("{d}/{name}") });
+            continue;
+        }
         let d = DIRS[if rng.chance(1, 2) { 0 } else { rng.below(DIRS.len()) }];
         let name = source_name(rng, i, o.dotted);
         paths.push(if d.is_empty() { name } else { format!("{d}/{name}") });
@@ -268,7 +280,7 @@ pub fn gen_graph_project(rng: &mut Rng, o: &GraphOpts, n: usize, edges: &BTreeSe
         // dependency-free part
         let pre = rng.below(4);
         for _ in 0..pre {
-            gen_free_element(rng, o, &mut b, &dir, i, &plains, &mut temp_ctr, deps.is_empty());
+            gen_free_element(rng, o, &mut b, &dir, i, &plains, &mut temp_ctr, deps.is_empty(), &outs[i]);
         }
         for (k, dj) in deps.iter().enumerate() {
             let x = rel_path(&dir, &outs[*dj]);
@@ -297,7 +309,7 @@ pub fn gen_graph_project(rng: &mut Rng, o: &GraphOpts, n: usize, edges: &BTreeSe
             }
             let post = rng.below(3);
             for _ in 0..post {
-                gen_free_element(rng, o, &mut b, &dir, i, &plains, &mut temp_ctr, false);
+                gen_free_element(rng, o, &mut b, &dir, i, &plains, &mut temp_ctr, false, &outs[i]);
             }
         }
         if Some(i) == big_file {
@@ -327,6 +339,12 @@ pub fn gen_graph_project(rng: &mut Rng, o: &GraphOpts, n: usize, edges: &BTreeSe
         }
         p.add_file(&format!("sized{size}.txt.txtpp"), B(text.into_bytes()));
     }
+    if o.wide && rng.chance(1, 10) {
+        let m = rng.range(20, 44);
+        for k in 0..m {
+            p.add_file(&format!("wide/w{k}.txt.txtpp"), B(format!("wide {k}\n").into_bytes()));
+        }
+    }
     if o.decoys {
         for d in ["txtpp", ".txtpp", "a.txtpp.b.c", "sub/notes.txt", "lib/f0.txt.bak"] {
             if rng.chance(1, 2) && p.file(d).is_none() {
@@ -347,6 +365,7 @@ fn gen_free_element(
     plains: &[(String, &str)],
     temp_ctr: &mut usize,
     marker_ok: bool,
+    own_out: &str,
 ) {
     let ws = *rng.pick(&WSS);
     let pf = *rng.pick(&PREFIXES);
@@ -383,7 +402,25 @@ fn gen_free_element(
             if o.temps {
                 *temp_ctr += 1;
                 let tdir = if rng.chance(1, 4) { *rng.pick(&DIRS) } else { dir };
-                let tpath = if tdir.is_empty() {
+                let own_stem_tmp = {
+                    let f = names::file_name(own_out);
+                    let stem = match f.rsplit_once('.') {
+                        Some((st, _)) if !st.is_empty() => st,
+                        _ => f,
+                    };
+                    format!("{stem}.tmp")
+                };
+                // at most one directive per target (two would rewrite each other's content)
+                let already = b.lines.iter().any(|l| l.contains(&own_stem_tmp));
+                let tpath = if rng.chance(1, 6) && !own_out.ends_with(".md") && !already {
+                    // a temp file named like the output with another extension (f1.txt -> f1.tmp)
+                    let f = names::file_name(own_out);
+                    let stem = match f.rsplit_once('.') {
+                        Some((st, _)) if !st.is_empty() => st,
+                        _ => f,
+                    };
+                    join_rel(parent_rel(own_out), &format!("{stem}.tmp")).unwrap_or_else(|| format!("{stem}.tmp"))
+                } else if tdir.is_empty() {
                     format!("t{i}_{temp_ctr}.tmp")
                 } else {
                     format!("{tdir}/t{i}_{temp_ctr}.tmp")
